@@ -23,8 +23,10 @@ import (
 	"io"
 	"os"
 	"path/filepath"
+	"runtime"
 	"sort"
 	"strings"
+	"time"
 
 	log "github.com/sirupsen/logrus"
 )
@@ -211,6 +213,40 @@ func (c *Ctx) close() {
 	b, _ := json.MarshalIndent(c.Stats, "", " ")
 	if err := os.WriteFile(filepath.Join(c.Out, "stats.json"), b, 0644); err != nil {
 		panic(err)
+	}
+}
+
+// Guard runs f under a watchdog. If f does not return within d the run is abandoned: the
+// violation is recorded, the outputs are flushed and the process exits (the stuck goroutine
+// cannot be stopped). A panic inside f is returned.
+func (c *Ctx) Guard(d time.Duration, prop, sig, what string, f func()) (panicked interface{}) {
+	done := make(chan interface{}, 1)
+	go func() {
+		defer func() { done <- recover() }()
+		f()
+	}()
+	deadline := time.After(d)
+	tick := time.NewTicker(50 * time.Millisecond)
+	defer tick.Stop()
+	for {
+		select {
+		case p := <-done:
+			return p
+		case <-tick.C:
+			var ms runtime.MemStats
+			runtime.ReadMemStats(&ms)
+			if ms.HeapAlloc > 6<<30 {
+				c.Violate(prop, sig, what+" (more than 6 GiB allocated: memory driven by numbers read, not by the input)", c.History())
+				c.End()
+				c.close()
+				os.Exit(0)
+			}
+		case <-deadline:
+			c.Violate(prop, sig, what+fmt.Sprintf(" (no return within %s)", d), c.History())
+			c.End()
+			c.close()
+			os.Exit(0)
+		}
 	}
 }
 
